@@ -110,8 +110,10 @@ func (m *MVCCHelper) Trash(version int64) error {
 			return it.Error()
 		}
 		//如果进入一个新的key, 这个key 忽略，不删除，也就是至少保留一个
-		if !bytes.HasPrefix(it.Key(), perfixkey) {
-			perfixkey = cutVersion(it.Key())
+		// group records by their exact key (the record key without its version): a prefix test would take the
+		// records of key "k-" or "k.0" for older versions of key "k" and delete their newest version
+		if cut := cutVersion(it.Key()); !bytes.Equal(cut, perfixkey) {
+			perfixkey = cut
 			if perfixkey == nil {
 				perfixkey = []byte("--.xxx.--")
 			}
